@@ -51,6 +51,7 @@ type info struct {
 	Assumptions []string `json:"assumptions"`
 	NCases      int      `json:"ncases"`
 	NRace       int      `json:"nrace"`
+	MemLimitMB  int      `json:"memlimit_mb"`
 }
 
 type finding struct {
@@ -443,7 +444,11 @@ func main() {
 			defer wg.Done()
 			sem <- struct{}{}
 			defer func() { <-sem }()
-			outs[i] = runShard(ctx, bin, prop, tier, seed, i, n, work, false, nil)
+			var extra []string
+			if inf.MemLimitMB > 0 {
+				extra = []string{fmt.Sprintf("VERIF_RLIMIT_AS_MB=%d", inf.MemLimitMB)}
+			}
+			outs[i] = runShard(ctx, bin, prop, tier, seed, i, n, work, false, extra)
 		}(i)
 	}
 	for i := 0; i < nr; i++ {
